@@ -498,6 +498,20 @@ func (x *Exec) callFuncValue(st *State, fr *frame, fv Val, args []Val, c *ssa.Ca
 	if cl := st.resolveClosure(fv.T); cl != nil {
 		return x.callFunc(st, fr, cl.Fn, cl.Bindings, args, c, pos)
 	}
+	// contract of a func-valued struct field: iface <Struct>.<field>.call
+	if u, ok := c.Value.(*ssa.UnOp); ok {
+		if fa, ok := u.X.(*ssa.FieldAddr); ok {
+			if pt, ok := fa.X.Type().Underlying().(*types.Pointer); ok {
+				if stt, ok := pt.Elem().Underlying().(*types.Struct); ok {
+					key := typeKey(pt.Elem()) + "." + stt.Field(fa.Field).Name() + ".call"
+					if ct := x.e.ifaceContracts[key]; ct != nil {
+						x.obligeAt(st, fr, "nil-func", pos, "", "(not (= "+st.term(fv)+" 0))")
+						return x.applyContract(st, fr, ct, c.Signature(), nil, append([]Val{fv}, args...), pos, key)
+					}
+				}
+			}
+		}
+	}
 	// func-type contract?
 	if n, ok := c.Value.Type().(*types.Named); ok {
 		if ct := x.e.ifaceContracts[typeKey(n)+".call"]; ct != nil {
@@ -937,6 +951,19 @@ func (x *Exec) doAppend(st *State, fr *frame, c *ssa.CallCommon, args []Val, pos
 	}
 	// in place: cells outside the appended range keep their value
 	st.assume(implies(inPlace, "(forall ((k Int)) (! (=> (or (< k (+ "+ro+" (s_len "+s.T+"))) (>= k (+ "+ro+" "+n+"))) (= (select (select "+h2+" "+rb+") k) (select (select "+h+" "+rb+") k))) :pattern ((select (select "+h2+" "+rb+") k))))"))
+	if isByteSlice(s.Ty) {
+		// the same facts at the level of byte strings: the result's content is the old content followed by the appended bytes
+		e.needWin()
+		st.groups["bytes"] = true
+		oldW := "(win (select " + h + " (s_base " + s.T + ")) (s_off " + s.T + ") " + slen0 + ")"
+		var srcW string
+		if bytesFromStr {
+			srcW = "(sbytes " + t.T + ")"
+		} else {
+			srcW = "(win (select " + h + " " + tbase + ") " + toff + " " + tlen + ")"
+		}
+		st.assume("(= (win (select " + h2 + " " + rb + ") " + ro + " " + n + ") (bcat " + oldW + " " + srcW + "))")
+	}
 	st.heapTerm(id, sort)
 	st.heap[id] = h2
 	_ = e
